@@ -17,6 +17,11 @@ pub struct PtCase {
     pub consist: bool,
     pub pdct: u8,
     pub steps: Vec<StepSpec>,
+    /// stand-alone units only: after a rejected request carry on with the *same* object (what
+    /// calling `LocomotiveSimulation::step()` again after an `Err` does) instead of the copy
+    /// taken before the attempt
+    #[serde(default)]
+    pub retry_on_same_object: bool,
 }
 
 pub fn gen_pt_case(g: &mut Gen, tier: Tier, force_consist: Option<bool>) -> PtCase {
@@ -25,7 +30,7 @@ pub fn gen_pt_case(g: &mut Gen, tier: Tier, force_consist: Option<bool>) -> PtCa
     let pdct = g.int(0, 1) as u8;
     let max_steps = if tier == Tier::Thorough { 80 } else { 40 };
     let steps = gen_steps(g, max_steps, dt_max(&units), !consist);
-    PtCase { units, consist, pdct, steps }
+    PtCase { units, consist, pdct, steps, retry_on_same_object: false }
 }
 
 pub type Vals = BTreeMap<String, f64>;
@@ -216,7 +221,9 @@ pub fn drive(case: &PtCase) -> PtTrace {
                 Err(e) => {
                     rec.err = format!("{e:#}");
                     tr.steps.push(rec);
-                    loco = snapshot;
+                    if !case.retry_on_same_object {
+                        loco = snapshot;
+                    }
                 }
             }
         }
@@ -248,6 +255,7 @@ fn common_labels(case: &PtCase, tr: &PtTrace, cx: &mut Ctx) -> (usize, bool, boo
     cx.label_if(regen, "regen_step");
     cx.label_if(acc.iter().any(|s| !s.engine_on), "engine_off_step");
     cx.label_if(tr.steps.iter().any(|s| !s.accepted), "has_rejected_request");
+    cx.label_if(case.retry_on_same_object && tr.steps.windows(2).any(|w| !w[0].accepted && w[1].accepted), "accepted_step_on_the_same_object_after_a_rejection");
     for r in tr.steps.iter().filter(|s| !s.accepted) {
         let cls = if r.kind == 4 { "abs".to_string() } else { format!("k{}@{}", r.kind, r.frac) };
         cx.label(&format!("reject:{cls}"));
@@ -735,11 +743,15 @@ fn pt_assumptions() -> Vec<String> {
 }
 
 macro_rules! pt_prop {
-    ($name:ident, $id:expr, $check:ident, $force:expr, $quick:expr, $rule:expr, $panic:expr) => {
+    ($name:ident, $id:expr, $check:ident, $force:expr, $quick:expr, $rule:expr, $panic:expr, $retry:expr) => {
         pub struct $name;
         impl $name {
             fn gen(g: &mut Gen, tier: Tier) -> PtCase {
-                gen_pt_case(g, tier, $force)
+                let mut c = gen_pt_case(g, tier, $force);
+                if $retry > 0.0 && !c.consist {
+                    c.retry_on_same_object = g.bool($retry);
+                }
+                c
             }
             fn check(c: &PtCase, cx: &mut Ctx) {
                 $check(c, cx)
@@ -773,10 +785,10 @@ macro_rules! pt_prop {
 }
 
 pt_prop!(C01, "C01", check_c01, None, 4000,
-    "generated conventional / battery-electric unit (55%) or consist of 1-8 units under RESGreedy/Proportional (45%), generated maps/ratings/SOC, 1-40 (thorough 1-80) adversarial steps; after every accepted step all per-step power balances, all cumulative energy balances, every energy_* == own sum of pwr_* x dt, SOC == soc0 - chemical energy/capacity, consist totals == sums over units. Non-trivial: >=5 accepted steps incl. >=1 traction and >=1 braking step; distinct = distinct case JSON", false);
+    "generated conventional / battery-electric unit (55%) or consist of 1-8 units under RESGreedy/Proportional (45%), generated maps/ratings/SOC, 1-40 (thorough 1-80) adversarial steps; after every accepted step all per-step power balances, all cumulative energy balances, every energy_* == own sum of pwr_* x dt, SOC == soc0 - chemical energy/capacity, consist totals == sums over units. Non-trivial: >=5 accepted steps incl. >=1 traction and >=1 braking step; distinct = distinct case JSON", false, 0.0);
 pt_prop!(C08, "C08", check_c08, None, 4000,
-    "same histories as C01 (stand-alone units get engine-off steps with 12% probability); per accepted step: every loss >= 0, every eta in (0,1], |out| <= |in| per converter and direction, cumulative fuel/loss/dyn-brake energies non-decreasing, dynamic braking only under braking demand, engine off => zero fuel, idle fuel and aux. Non-trivial: >=3 accepted steps incl. an engine-off step or a regenerating step", false);
+    "same histories as C01 (stand-alone units get engine-off steps with 12% probability); per accepted step: every loss >= 0, every eta in (0,1], |out| <= |in| per converter and direction, cumulative fuel/loss/dyn-brake energies non-decreasing, dynamic braking only under braking demand, engine off => zero fuel, idle fuel and aux. Non-trivial: >=3 accepted steps incl. an engine-off step or a regenerating step", false, 0.0);
 pt_prop!(C09, "C09", check_c09, None, 4000,
-    "same adversarial histories; after every accepted step: FC shaft power within rating and within the transient limit published for the step (code tolerance 1e-3), published transient limit <= min(rating, max(prev shaft power + rating/lag*dt, init)), generator/drivetrain/battery within ratings, battery power within published SOC-dependent limits, tractive power <= published unit limit, regen <= published regen limit, SOC inside window, published limits in [0 (or -aux), rating]. Non-trivial: accepted steps at 0.999-1.0005 of >=2 different limits, or one such plus a correctly rejected over-limit request", false);
+    "same adversarial histories; after every accepted step: FC shaft power within rating and within the transient limit published for the step (code tolerance 1e-3), published transient limit <= min(rating, max(prev shaft power + rating/lag*dt, init)), generator/drivetrain/battery within ratings, battery power within published SOC-dependent limits, tractive power <= published unit limit, regen <= published regen limit, SOC inside window, published limits in [0 (or -aux), rating]. Non-trivial: accepted steps at 0.999-1.0005 of >=2 different limits, or one such plus a correctly rejected over-limit request; 30 % of the stand-alone histories carry on with the same object after a rejected request (a rejection must not move the engine's ramp base)", false, 0.3);
 pt_prop!(C10, "C10", check_c10, Some(true), 4000,
-    "consists of 1-8 units (any mix/order), both shipped policies, adversarial demand histories; after every accepted step: sum of unit powers == request (1e-8), unit traction <= its published limit, unit braking <= drivetrain rating, no opposite-sign unit, regen only on battery units and <= their published regen limit, RESGreedy: fuel units idle while battery capability suffices, else battery units at limit and fuel units cover exactly the deficit. Non-trivial: mixed consist that saw the deficit regime or braking beyond total regen", true);
+    "consists of 1-8 units (any mix/order), both shipped policies, adversarial demand histories; after every accepted step: sum of unit powers == request (1e-8), unit traction <= its published limit, unit braking <= drivetrain rating, no opposite-sign unit, regen only on battery units and <= their published regen limit, RESGreedy: fuel units idle while battery capability suffices, else battery units at limit and fuel units cover exactly the deficit. Non-trivial: mixed consist that saw the deficit regime or braking beyond total regen", true, 0.0);
